@@ -446,6 +446,92 @@ fn check_forced(case: &ForcedCase, ctx: &mut Ctx) {
     ctx.nontrivial_if(diverged);
 }
 
+
+// ------------------------------------------------------------------------------------------------
+// advertisement completeness when a responsible range is set
+// ------------------------------------------------------------------------------------------------
+
+#[derive(Clone, Debug, Serialize, Deserialize)]
+pub struct RangeCase {
+    pub content: NodeContent,
+    /// responsible range of the advertising node = distance of one of its held records (monotone pick)
+    pub range_at: u16,
+    pub exact: bool,
+}
+
+fn range_strategy() -> BoxedStrategy<RangeCase> {
+    (content_strategy(), any::<u16>(), any::<bool>()).prop_map(|(content, range_at, exact)| RangeCase { content, range_at, exact }).boxed()
+}
+
+/// "A node advertises every record it holds to its replication targets" — also the records that lie
+/// beyond its own responsible range (those are exactly the ones a closer node should pull in).
+fn check_range(case: &RangeCase, ctx: &mut Ctx) {
+    use sha2::{Digest, Sha256};
+    let mut cl = Cluster::new(&[320, 321], None);
+    let ops = reg_ops();
+    let base = fix::register_base(OWNER, META, Some(vec![]));
+    let c = &case.content;
+    for j in 0..4u64 {
+        if c.chunks & (1 << j) != 0 {
+            cl.seed_record(0, fix::chunk_record(&fix::chunk(700 + j, 30 + j as usize)));
+        }
+    }
+    if let Some(bits) = c.reg {
+        let chosen: Vec<RegisterOp> = (0..3).filter(|b| bits & (1 << b) != 0).map(|b| ops[b].clone()).collect();
+        cl.seed_record(0, fix::register_record(fix::register_key(OWNER, META), &fix::signed_register(&base, OWNER, chosen)));
+    }
+    if c.txs != 0 {
+        let list: Vec<Transaction> = (0..4).filter(|b| c.txs & (1 << b) != 0).map(|b| fix::transaction(OWNER + 2, b as u64, true)).collect();
+        cl.seed_record(0, fix::transactions_record(fix::transaction_key(OWNER + 2), &list));
+    }
+    if c.pad != 0 {
+        cl.seed_record(0, fix::scratchpad_record(&pad_of(c.pad)));
+    }
+    let held: BTreeSet<Vec<u8>> = cl.local_list(0).keys().map(|a| a.to_record_key().to_vec()).collect();
+    if held.is_empty() {
+        ctx.label("nothing_held");
+        return;
+    }
+    // distances of the held records from node 0 (harness metric)
+    let me: [u8; 32] = Sha256::digest(cl.nodes[0].peer.to_bytes()).into();
+    let mut dists: Vec<U256> = held
+        .iter()
+        .map(|k| {
+            let h: [u8; 32] = Sha256::digest(k).into();
+            let mut x = [0u8; 32];
+            for i in 0..32 {
+                x[i] = me[i] ^ h[i];
+            }
+            U256::from_be_bytes(x)
+        })
+        .collect();
+    dists.sort();
+    let at = dists[pick_idx(case.range_at, dists.len())];
+    let range = if case.exact { at } else { at.saturating_sub(U256::from(1u8)) };
+    let outside = dists.iter().filter(|d| **d > range).count();
+    {
+        let d = &mut cl.nodes[0].driver;
+        cl.rt.block_on(async move {
+            d.verif_set_distance_range(range);
+            d.verif_reset_replication_throttle();
+            let _ = d.verif_handle_local_cmd(LocalSwarmCmd::TriggerIntervalReplication);
+        });
+    }
+    cl.settle();
+    let sent: Vec<&(usize, usize, Vec<(NetworkAddress, RecordType)>)> = cl.replicate_lists.iter().filter(|(f, t, _)| *f == 0 && *t == 1).collect();
+    ctx.label_if(outside > 0, "holds_records_beyond_its_range");
+    ctx.nontrivial_if(outside > 0);
+    if sent.is_empty() {
+        ctx.fail("no_replication_list_sent_to_neighbour", format!("node 0 holds {} records (range set), no list reached node 1", held.len()));
+        return;
+    }
+    let advertised: BTreeSet<Vec<u8>> = sent.iter().flat_map(|(_, _, ks)| ks.iter().map(|(a, _)| a.to_record_key().to_vec())).collect();
+    let missing: Vec<String> = held.difference(&advertised).map(|k| hex::encode(&k[..6])).collect();
+    if !missing.is_empty() {
+        ctx.fail("held_record_beyond_range_not_advertised", format!("node 0 holds {} records, {outside} of them beyond its responsible range; not advertised: {missing:?}", held.len()));
+    }
+}
+
 pub fn run(cfg: RunCfg) {
     let mut rep = Report::new(cfg, "exploration");
     rep.rule = "C09: 2-3 real nodes (each other's closest peers, spare capacity, unrestricted range) with generated initial contents (4 chunks, a register with op subsets, a transaction set, a scratchpad with counters; missing / diverging), 2-4 rounds of interval replication on every node, every message delivered in a generated order; the harness is the transport.".into();
@@ -458,6 +544,11 @@ pub fn run(cfg: RunCfg) {
         rep, "cluster", (1_200, 40_000), 16,
         "non-trivial: >=1 mutable record diverging between two nodes and >=1 immutable record missing on one; distinct by whole case",
         case_strategy, check
+    );
+    vh_core::section!(
+        rep, "advert_with_range", (600, 20_000), 16,
+        "a node with a responsible range set (at / just below the distance of one of its held records) triggers replication: the list must carry every held record; non-trivial: some held record lies beyond the range",
+        range_strategy, check_range
     );
     vh_core::section!(
         rep, "forced_fetch", (800, 30_000), 16,
